@@ -273,6 +273,13 @@ Definition red_run (key : K -> K) (groups : bool) (src : list K) : red_state :=
 Definition group_of (s : red_state) (k : K) : list K :=
   match d_get (r_groups s) k with Some g => g | None => [] end.
 
+(* total dict reads used by the translated source (Gen/C09_Src.v): d[k] with a
+   default for a missing key (the KeyError path is not represented) *)
+Definition d_at (d : pydict K) (k : K) : K :=
+  match d_get d k with Some v => v | None => 0 end.
+Definition group_at (d : pydict (list K)) (k : K) : list K :=
+  match d_get d k with Some g => g | None => [] end.
+
 (* ret = [redundant_groups[k][1] for k in redundant_order] *)
 Definition m_redundant (key : K -> K) (src : list K) : list K :=
   let s := red_run key false src in
